@@ -181,6 +181,7 @@ func runC15(r *mon.Run) {
 		}
 	}
 	c15Expansion(r, lg)
+	c15Concurrent(r)
 	c15Proofs(r)
 	if lg != nil {
 		lg.w.Flush()
@@ -347,6 +348,74 @@ func c15Expansion(r *mon.Run, lg *c15logger) {
 }
 
 // refContribD recomputes the challenge contributions of a library-made ProofD in protocol order.
+// c15Concurrent calls the three functions from many goroutines at once on inputs whose reference values were computed
+// beforehand: they are pure functions of their arguments, so the schedule must not matter.
+func c15Concurrent(r *mon.Run) {
+	rng := r.Rand("concurrent")
+	type hcase struct {
+		bytes []byte
+		vals  []*big.Int
+		sig   bool
+		a, b  *big.Int
+		idx   int
+		bl    uint
+		wantI *big.Int
+		wantH *big.Int
+		wantG *big.Int
+	}
+	nCases := r.Pick(64, 256)
+	cases := make([]*hcase, nCases)
+	for i := range cases {
+		c := &hcase{sig: i%2 == 0, idx: rng.IntN(300), bl: []uint{256, 257, 512, 1024, 2048}[rng.IntN(5)]}
+		n := []int{0, 1, 31, 33, 64, 300, 4096, 65536, 262144}[i%9]
+		c.bytes = make([]byte, n)
+		for k := range c.bytes {
+			c.bytes[k] = byte(rng.Uint32())
+		}
+		for k := 0; k < 1+rng.IntN(6); k++ {
+			c.vals = append(c.vals, c15Entry(rng))
+		}
+		c.a, c.b = c15Entry(rng), c15Entry(rng)
+		c.wantI = refimpl.IntHash(c.bytes)
+		c.wantH = refimpl.HashCommit(c.vals, c.sig)
+		c.wantG = refimpl.GetHashNumber(c.a, c.b, c.idx, c.bl)
+		cases[i] = c
+	}
+	G := runtime.NumCPU() * 2
+	rounds := r.Pick(6, 40)
+	var wg sync.WaitGroup
+	for g := 0; g < G; g++ {
+		wg.Add(1)
+		go func(g int) {
+			defer wg.Done()
+			for round := 0; round < rounds; round++ {
+				for k := range cases {
+					c := cases[(k*7+g*13+round)%len(cases)]
+					var gi, gh, gg *big.Int
+					pv, _ := mon.Try(func() {
+						gi = verifhooks.IntHashSha256(c.bytes)
+						gh = verifhooks.HashCommit(c.vals, c.sig)
+						gg = verifhooks.GetHashNumber(c.a, c.b, c.idx, c.bl)
+					})
+					r.Eval("concurrent", outcome(pv == nil, pv))
+					if pv != nil || gi.Cmp(c.wantI) != 0 {
+						r.Violation("C15/inthash-differs-from-reference/concurrent", fmt.Sprintf("IntHashSha256 called from %d goroutines at once differs from SHA-256 of the bytes (panic=%v)", G, pv), map[string]any{"hex_len": len(c.bytes), "got": dumpInt(gi), "reference": dumpInt(c.wantI)})
+					}
+					if pv == nil && gh.Cmp(c.wantH) != 0 {
+						r.Violation("C15/hashcommit-differs-from-reference/concurrent", fmt.Sprintf("HashCommit called from %d goroutines at once differs from the reference", G), map[string]any{"values": decs(c.vals), "issig": c.sig})
+					}
+					if pv == nil && gg.Cmp(c.wantG) != 0 {
+						r.Violation("C15/gethashnumber-differs-from-reference/concurrent", fmt.Sprintf("GetHashNumber called from %d goroutines at once differs from the reference", G), map[string]any{"a": dumpInt(c.a), "b": dumpInt(c.b), "index": c.idx, "bitlen": c.bl})
+					}
+				}
+			}
+		}(g)
+	}
+	wg.Wait()
+	r.Set("concurrent_goroutines", G)
+	r.FloorFam("concurrent", 1000)
+}
+
 func refContribD(pk *gabikeys.PublicKey, d *gabi.ProofD, revIdx int) []*big.Int {
 	out := []*big.Int{d.A, refimpl.RefZTilde(pk, d)}
 	if nr := d.NonRevocationProof; nr != nil {
